@@ -172,3 +172,42 @@ def c03_trailing_carry(f, line, impl, spec):
         d >>= 64
         k += 1
     return True
+
+
+def c12_swapped_byte_order(f, line, impl, spec):
+    import string
+    toks = line.split()
+    if toks[0] not in f.get('ops', []) or len(toks) != 3 or not toks[2].startswith('x'):
+        return False
+    try:
+        n = int(toks[1]); raw = bytes.fromhex(toks[2][1:])
+    except ValueError:
+        return False
+    if toks[0].endswith('from_le_hex'):
+        try:
+            t = raw.decode('ascii')
+        except UnicodeDecodeError:
+            return False
+        if len(t) != 16 * n or any(c not in string.hexdigits for c in t):
+            return False
+        v = int(t, 16); be = format(v, 'x') if v & 1 else 'panic'
+    elif toks[0].endswith('from_le_byte_array'):
+        if len(raw) != 8 * n:
+            return False
+        v = int.from_bytes(raw, 'big'); be = format(v, 'x') if v else 'none'
+    else:
+        return False
+    return impl == be and impl != spec
+
+
+def c04_boxed_assign_wider_rhs(f, line, impl, spec):
+    """C04-boxed-assign-wider-rhs: `BoxedUint (+|-)= rhs` (also Wrapping<BoxedUint>, `+= Uint<N>`, `+ primitive`)
+    with a right-hand side of LARGER precision whose high limbs matter: release builds drop the high limbs
+    (the documented precondition is only a debug_assert) and return a value although the exact result does
+    not fit / differs.  Matches only: the in-place ops, nb > na, a non-panic implementation output, and a spec
+    that is `panic` or lists `panic` as an allowed alternative."""
+    t = line.split()
+    if t[0] not in ('c04.b.add_assign', 'c04.b.sub_assign', 'c04.b.wrapping_assign') or len(t) != 5:
+        return False
+    na, nb = int(t[1]), int(t[3])
+    return nb > na and impl != 'panic' and 'panic' in spec.split(' || ') and not impl.startswith('routes-differ')
